@@ -34,6 +34,10 @@ LEVEL_TEXT = {
             "Every helper and every joint_array constructor form is run with the k-th element construction throwing, for every k; constructed elements must be destroyed exactly once, memory returned, the exception unchanged, and the allocator (and the joint memory) usable again."),
     "C12": ("exploration", "5 C12", "C01/C05/C15 oracles continued across move construction, move assignment (fresh and used targets) and swap inserted into histories",
             "Moves are inserted at seeded positions; afterwards old pointers are released through the new owner, the moved-from object is destroyed, the target's former blocks must be back at its own block source, the leak handler must stay silent; crashes/hangs/assertion aborts of the moved-from object are violations."),
+    "C13": ("exploration", "5 C13", "instrumented mutex (owner, contention) + instrumented allocator (owner check and in-flight counter on every member, delays inside) under 2-16 threads; ThreadSanitizer on real allocators behind std::mutex and on stateless allocators",
+            "Every forwarding member of allocator_storage and the lock() proxy is called from several threads; each entry into the wrapped allocator must find the mutex held by the calling thread and nobody else inside. Real pools/collections/stacks behind std::mutex run per-thread patterns under ThreadSanitizer; wrapping a stateless allocator must take no lock. Evidence reports entries per member and contended acquisitions."),
+    "C14": ("exploration", "5 C14", "token scheduler over guarded scheduling points of the temporary stack list + offline ownership-interval checker over the event log; ThreadSanitizer free runs; exit-time child processes; scope replay",
+            "Interleavings of 2-4 threads over the 12 scheduling points are enumerated by a seeded scheduler (distinct point sequences counted); an offline checker over the call/return event log decides that no stack is held by two live threads and that stacks are reused (count <= peak live threads). Children check that nothing is reported as leaked at exit; nested scopes are checked by replay equality."),
     "C15": ("exploration", "5 C15", "recording leak handler compared with a model of traits-level net bytes at every destruction",
             "At each destruction the handler must have been called exactly once with the model's net amount if non-zero and not at all if zero; moved-from objects must report nothing."),
     "C16": ("fault_enumeration", "5 C16", "one child process per invalid release, outcome classified (handler / abort / fatal signal / continued); counting handlers on valid histories",
